@@ -31,9 +31,11 @@ def third_party(b, xs, n_out=1, code=None, feats=None):
             outs.append(b.fm(xt.shape, xt.dtype, scale=xt.scales[0], zp=xt.zps[0]))
         else:
             outs.append(b.net.add(T(b.fresh("t"), xt.shape, xt.dtype)))
-    nopt = rng.choice([0, 1, 3, 12, 40])
+    # an absent / empty custom_options vector makes the writer die (TypeError in CustomOptionsSerializer.serialize,
+    # C13's subject), so it is kept rare here: C11 speaks about networks that compile
+    nopt = rng.choice([1, 3, 12, 40, 40]) if rng.random() < 0.96 else 0
     co = bytes(rng.getrandbits(8) for _ in range(nopt))
-    if rng.random() < 0.15:
+    if rng.random() < 0.02:
         co = None
     b.net.ops.append(Op("CUSTOM", list(xs), outs, None, custom_code=code, custom_options=co, version=rng.choice([1, 1, 2, 7])))
     feats.add("third_party_custom")
